@@ -164,6 +164,11 @@ theorem notify_tr (st : State) (c db : Nat) (k : Bytes) : Tr q (Disc w) c st (no
   · exact Tr.refl c st
   · exact ⟨Logs.of_eq rfl rfl, Others.of_eq rfl⟩
 
+theorem notifyN_tr (c db : Nat) (k : Bytes) (n : Nat) : ∀ (st : State), Tr q (Disc w) c st (notifyN n st db k) := by
+  induction n with
+  | zero => intro st; exact Tr.refl c st
+  | succ n ih => intro st; simp only [notifyN]; exact (notify_tr w q st c db k).trans (ih _)
+
 theorem doPush_tr (st : State) (c now : Nat) (path : Path) (cmd : List Bytes) :
     Tr q (Disc w) c st (doPush q st c now path cmd).1 := by
   unfold doPush
@@ -172,7 +177,7 @@ theorem doPush_tr (st : State) (c now : Nat) (path : Path) (cmd : List Bytes) :
   simp only []
   split
   · split
-    · exact h.trans (notify_tr w q _ c _ _)
+    · exact h.trans (notifyN_tr w q c _ _ _ _)
     · exact h
   · exact h
 
@@ -357,6 +362,11 @@ theorem notify_B (st : State) (k : Bytes) (h : Stay i c st) : TrB q i ns c st (n
     · exact h.2 wk hwk
     · rw [hwk]; exact firstWaiter_db hf
 
+theorem notifyN_B (k : Bytes) (n : Nat) : ∀ (st : State), Stay i c st → TrB q i ns c st (notifyN n st i k) := by
+  induction n with
+  | zero => intro st h; exact TrB.refl h
+  | succ n ih => intro st h; simp only [notifyN]; exact (notify_B q i ns c st k h).trans (fun h' => ih _ h')
+
 theorem doPush_B (st : State) (now : Nat) (path : Path) (hpath : ∀ b, path ≠ .script b) (cmd : List Bytes)
     (hn : nameOf cmd = "LPUSH" ∨ nameOf cmd = "RPUSH") (h : Stay i c st) :
     TrB q i ns c st (doPush q st c now path cmd).1 := by
@@ -369,7 +379,7 @@ theorem doPush_B (st : State) (now : Nat) (path : Path) (hpath : ∀ b, path ≠
   · split
     · refine ha.trans (fun h' => ?_)
       rw [h.1]
-      exact notify_B q i ns c _ _ h'
+      exact notifyN_B q i ns c _ _ _ h'
     · exact ha
   · exact ha
 
